@@ -577,6 +577,9 @@ class Normalizer:
             if self.propagated:
                 self._unroll_new_loops(node)      # a loop over a table that was held in a temporary
         _inline_new_module_constants(node, self.module, self.known)
+        _inline_new_class_constants(node, self.func, self.module)
+        if self.inlined:
+            _fold_constant_conditions(node)
         n_ = len(self.inlined)
         self._unroll_new_loops(node)              # a loop over a module-level dispatch table
         if len(self.inlined) != n_:
@@ -604,6 +607,7 @@ class Normalizer:
                     break
         _fuse_comprehensions(node)
         _splice_starred_displays(node)
+        _concat_displays(node)
         if not os.environ.get("TYVERIF_NO_IFEXP"):
             _distribute_calls_over_ifexp(node)
             _expand_ifexp_statements(node, self.known)
@@ -1069,7 +1073,7 @@ def _try_propagate(fnode, blk, i, name):
                 b = b.value
             if id(b) in load_ids:
                 return False
-        if isinstance(n, (ast.Subscript, ast.Attribute)) and isinstance(n.ctx, (ast.Store, ast.Del)):
+        if isinstance(n, (ast.Subscript, ast.Attribute)) and isinstance(n.ctx, (ast.Store, ast.Del)) and not alias_of_attribute:
             b = n.value
             while isinstance(b, (ast.Subscript, ast.Attribute)):
                 b = b.value
@@ -1079,7 +1083,7 @@ def _try_propagate(fnode, blk, i, name):
             b = n.target
             while isinstance(b, (ast.Subscript, ast.Attribute)):
                 b = b.value
-            if isinstance(b, ast.Name) and b.id == name:
+            if isinstance(b, ast.Name) and b.id == name and (not alias_of_attribute or b is n.target):
                 return False
     if len(loads) > 1 and isinstance(value, (ast.List, ast.Dict, ast.Set, ast.ListComp, ast.DictComp, ast.SetComp)):
         return False        # one mutable object shared by several uses
@@ -1837,10 +1841,14 @@ def _collect_keyed_fill(fnode, snapshot):
                             vals.append(nx.value)
                         elif isinstance(nx, ast.Expr) and isinstance(nx.value, ast.Call) and isinstance(nx.value.func, ast.Attribute) and nx.value.func.attr == "update" \
                                 and isinstance(nx.value.func.value, ast.Name) and nx.value.func.value.id == name and not uses(ast.Tuple(elts=list(nx.value.args) + [k.value for k in nx.value.keywords], ctx=ast.Load()), name) \
-                                and all(k.arg for k in nx.value.keywords) and len(nx.value.args) <= 1 and (not nx.value.args or isinstance(nx.value.args[0], ast.Dict)):
-                            if nx.value.args:
+                                and all(k.arg for k in nx.value.keywords) and len(nx.value.args) <= 1 \
+                                and (not nx.value.args or isinstance(nx.value.args[0], ast.Dict) or _simple_arg(nx.value.args[0])):
+                            if nx.value.args and isinstance(nx.value.args[0], ast.Dict):
                                 keys.extend(nx.value.args[0].keys)
                                 vals.extend(nx.value.args[0].values)
+                            elif nx.value.args:
+                                keys.append(None)               # d.update(other) -> {**d, **other}
+                                vals.append(nx.value.args[0])
                             keys.extend(ast.Constant(k.arg) for k in nx.value.keywords)
                             vals.extend(k.value for k in nx.value.keywords)
                         else:
@@ -1855,6 +1863,79 @@ def _collect_keyed_fill(fnode, snapshot):
     if count:
         ast.fix_missing_locations(fnode)
     return count
+
+
+def _fold_constant_conditions(fnode):
+    """after a helper was inlined with literal flags: `False and x` -> False, `True and x` -> x, `not True` -> False, and an `if` /
+    conditional expression whose test is a literal keeps the arm that is taken"""
+    class E(ast.NodeTransformer):
+        def visit_BoolOp(self, n):
+            self.generic_visit(n)
+            is_and = isinstance(n.op, ast.And)
+            vals = []
+            for v in n.values:
+                if isinstance(v, ast.Constant) and isinstance(v.value, bool):
+                    if v.value != is_and:
+                        # False in an `and` / True in an `or`: decides the result, provided what stands before it has no effect
+                        if all(_pure_expr(x) for x in vals):
+                            return ast.copy_location(ast.Constant(value=v.value), n)
+                        vals.append(v)
+                    # True in an `and` / False in an `or`: neutral
+                    continue
+                vals.append(v)
+            if not vals:
+                return ast.copy_location(ast.Constant(value=is_and), n)
+            if len(vals) == 1:
+                return vals[0]
+            n.values = vals
+            return n
+
+        def visit_UnaryOp(self, n):
+            self.generic_visit(n)
+            if isinstance(n.op, ast.Not) and isinstance(n.operand, ast.Constant) and isinstance(n.operand.value, bool):
+                return ast.copy_location(ast.Constant(value=not n.operand.value), n)
+            return n
+
+        def visit_IfExp(self, n):
+            self.generic_visit(n)
+            if isinstance(n.test, ast.Constant) and isinstance(n.test.value, bool):
+                return n.body if n.test.value else n.orelse
+            return n
+    E().visit(fnode)
+
+    def rec(stmts):
+        out = []
+        for st in stmts:
+            if isinstance(st, (ast.FunctionDef, ast.AsyncFunctionDef, ast.ClassDef)):
+                out.append(st)
+                continue
+            for fld in ("body", "orelse", "finalbody"):
+                sub = getattr(st, fld, None)
+                if isinstance(sub, list) and sub and isinstance(sub[0], ast.stmt):
+                    setattr(st, fld, rec(sub) or ([ast.Pass()] if fld == "body" else []))
+            if isinstance(st, ast.Try):
+                for h in st.handlers:
+                    h.body = rec(h.body) or [ast.Pass()]
+            if isinstance(st, ast.If) and isinstance(st.test, ast.Constant) and isinstance(st.test.value, bool):
+                out.extend(st.body if st.test.value else st.orelse)
+                continue
+            out.append(st)
+        return out
+    fnode.body = rec(fnode.body) or [ast.Pass()]
+    ast.fix_missing_locations(fnode)
+
+
+def _concat_displays(fnode):
+    """(a, b) + (c, d) -> (a, b, c, d) and [a] + [b] -> [a, b]: the sum of two displays of the same kind is the display"""
+    class C(ast.NodeTransformer):
+        def visit_BinOp(self, n):
+            self.generic_visit(n)
+            if isinstance(n.op, ast.Add) and type(n.left) is type(n.right) and isinstance(n.left, (ast.Tuple, ast.List)) \
+                    and not any(isinstance(e, ast.Starred) for e in n.left.elts + n.right.elts):
+                return ast.copy_location(type(n.left)(elts=list(n.left.elts) + list(n.right.elts), ctx=ast.Load()), n)
+            return n
+    C().visit(fnode)
+    ast.fix_missing_locations(fnode)
 
 
 def _splice_starred_displays(fnode):
@@ -1873,6 +1954,17 @@ def _splice_starred_displays(fnode):
             n.elts, _ = splice(n.elts)
         elif isinstance(n, ast.Call):
             n.args, _ = splice(n.args)
+        elif isinstance(n, ast.Dict) and any(k is None and isinstance(v, ast.Dict) for k, v in zip(n.keys, n.values)):
+            # {**{"a": x}, **rest} -> {"a": x, **rest}
+            keys, vals = [], []
+            for k, v in zip(n.keys, n.values):
+                if k is None and isinstance(v, ast.Dict):
+                    keys.extend(v.keys)
+                    vals.extend(v.values)
+                else:
+                    keys.append(k)
+                    vals.append(v)
+            n.keys, n.values = keys, vals
 
 
 def _explicit_keywords(fnode):
@@ -1889,10 +1981,106 @@ def _explicit_keywords(fnode):
             c.keywords = new
 
 
+CONSTANT_ROOTS = {"np", "numpy", "math", "datetime", "timedelta", "date", "frozenset", "set", "tuple", "dict", "list", "float", "int", "str", "slice",
+                  "range", "re", "operator", "pd", "Fraction", "Decimal"}
+
+
+def _constant_expr(v, consts=(), depth=0):
+    """an expression built from literals and well-known library names only: its value is the same wherever it is written"""
+    if depth > 8:
+        return False
+    if isinstance(v, ast.Constant):
+        return True
+    if isinstance(v, ast.JoinedStr):
+        return all(isinstance(x, ast.Constant) for x in v.values)
+    if isinstance(v, (ast.Tuple, ast.List, ast.Set)):
+        return all(_constant_expr(e, consts, depth + 1) for e in v.elts)
+    if isinstance(v, ast.Dict):
+        return all(k is not None and _constant_expr(k, consts, depth + 1) for k in v.keys) and all(_constant_expr(e, consts, depth + 1) for e in v.values)
+    if isinstance(v, ast.UnaryOp):
+        return _constant_expr(v.operand, consts, depth + 1)
+    if isinstance(v, ast.BinOp):
+        return _constant_expr(v.left, consts, depth + 1) and _constant_expr(v.right, consts, depth + 1)
+    if isinstance(v, ast.Name):
+        return v.id in CONSTANT_ROOTS or v.id in consts
+    if isinstance(v, ast.Attribute):
+        return _constant_expr(v.value, consts, depth + 1)
+    if isinstance(v, ast.Subscript):
+        return _constant_expr(v.value, consts, depth + 1) and _constant_expr(v.slice, consts, depth + 1)
+    if isinstance(v, ast.Call):
+        d = dotted(v.func) or ""
+        if d.split(".")[-1] in ("random", "rand", "randn", "now", "today", "utcnow", "time", "getenv", "environ", "open", "shuffle", "permutation", "seed"):
+            return False
+        return _constant_expr(v.func, consts, depth + 1) and all(_constant_expr(a, consts, depth + 1) for a in v.args) \
+            and all(k.arg is not None and _constant_expr(k.value, consts, depth + 1) for k in v.keywords)
+    if isinstance(v, ast.Lambda):
+        own = {a.arg for a in v.args.args + v.args.kwonlyargs + v.args.posonlyargs}
+        free = {n.id for n in ast.walk(v.body) if isinstance(n, ast.Name)} - own
+        return free <= CONSTANT_ROOTS and not any(isinstance(n, (ast.Yield, ast.Await, ast.NamedExpr)) for n in ast.walk(v.body))
+    return False
+
+
+def _inline_new_class_constants(fnode, func, module):
+    """Class.NAME / self.NAME / cls.NAME for a class-level NAME = <constant expression> that is not in the snapshot: written out"""
+    cls = getattr(func, "cls", None)
+    if cls is None:
+        return
+    from .state import known as _known_state
+    base = _known_state().get(module.rel, {}).get("attrs", {}).get(cls.name)
+    if base is None:
+        return
+    cnode = cls.node if hasattr(cls, "node") else cls
+    consts = {}
+    class_names = {t.id for st in getattr(cnode, "body", []) if isinstance(st, ast.Assign) for t in st.targets if isinstance(t, ast.Name)}
+
+    class Q(ast.NodeTransformer):
+        """inside the class body a bare NAME is the class attribute: Class.NAME outside"""
+        def visit_Name(self, n):
+            if isinstance(n.ctx, ast.Load) and n.id in class_names:
+                return ast.copy_location(ast.Attribute(value=ast.Name(id=cls.name, ctx=ast.Load()), attr=n.id, ctx=ast.Load()), n)
+            return n
+    for st in getattr(cnode, "body", []):
+        if isinstance(st, ast.Assign) and len(st.targets) == 1 and isinstance(st.targets[0], ast.Name) and st.targets[0].id not in base \
+                and _constant_expr(st.value, consts=class_names):
+            consts[st.targets[0].id] = ast.fix_missing_locations(Q().visit(clone(st.value)))
+    if not consts:
+        return
+    # never assigned through an instance / the class anywhere in the module
+    for n in ast.walk(module.tree):
+        if isinstance(n, ast.Attribute) and isinstance(n.ctx, (ast.Store, ast.Del)) and n.attr in consts:
+            consts.pop(n.attr, None)
+    if not consts:
+        return
+    me = fnode.args.args[0].arg if fnode.args.args else None
+
+    class R(ast.NodeTransformer):
+        def visit_Attribute(self, n):
+            self.generic_visit(n)
+            if isinstance(n.ctx, ast.Load) and n.attr in consts and isinstance(n.value, ast.Name) and n.value.id in (cls.name, me, "self", "cls"):
+                return ast.copy_location(clone(consts[n.attr]), n)
+            return n
+    R().visit(fnode)
+    ast.fix_missing_locations(fnode)
+
+
 def _inline_new_module_constants(fnode, module, known):
     """a module-level NAME = <constant-like value> that is not in the snapshot (a literal hoisted into a named constant) is
     written out where it is used"""
     consts = {}
+    written = set()
+    for n in ast.walk(module.tree):
+        if isinstance(n, (ast.FunctionDef, ast.AsyncFunctionDef)):
+            declared = {nm for g in ast.walk(n) if isinstance(g, ast.Global) for nm in g.names}
+            written |= declared
+            for x in ast.walk(n):
+                if isinstance(x, (ast.Subscript, ast.Attribute)) and isinstance(x.ctx, (ast.Store, ast.Del)):
+                    b = x.value
+                    while isinstance(b, (ast.Subscript, ast.Attribute)):
+                        b = b.value
+                    if isinstance(b, ast.Name):
+                        written.add(b.id)
+                elif isinstance(x, ast.Call) and isinstance(x.func, ast.Attribute) and x.func.attr in MUTATORS and isinstance(x.func.value, ast.Name):
+                    written.add(x.func.value.id)
     for st in module.tree.body:
         if isinstance(st, ast.Assign) and len(st.targets) == 1 and isinstance(st.targets[0], ast.Name) and "<global>:" + st.targets[0].id not in known:
             v = st.value
@@ -1900,6 +2088,9 @@ def _inline_new_module_constants(fnode, module, known):
                                                and all(isinstance(a, (ast.Constant, ast.UnaryOp)) for a in v.args) and not v.keywords) \
                 or (isinstance(v, (ast.Tuple, ast.List)) and all(isinstance(e, (ast.Constant, ast.Tuple)) or _literal_row(e) for e in v.elts)) \
                 or (isinstance(v, ast.UnaryOp) and isinstance(v.operand, ast.Constant))
+            if not ok and st.targets[0].id not in written and sum(1 for s2 in module.tree.body if isinstance(s2, ast.Assign) and any(
+                    isinstance(t2, ast.Name) and t2.id == st.targets[0].id for t2 in s2.targets)) == 1:
+                ok = _constant_expr(v, consts)       # np.dtype('>i2'), timedelta(microseconds=1), np.array([...]), datetime.max - datetime.min ...
             if ok:
                 consts[st.targets[0].id] = v
     if not consts:
